@@ -362,6 +362,52 @@ func enumSubUnsub(e *enumCtx, thorough bool) {
 	}
 }
 
+// overlong: strings that do not fit the two-byte length prefix (65536 bytes and more).
+// Such a message has no MQTT encoding: Encode has to refuse it; bytes that decode to
+// something else than what was put in are the one thing it must not produce.
+func overlong(e *enumCtx) {
+	for _, n := range []int{65536, 65539} {
+		for _, p := range []*refcodec.Packet{
+			{Type: refcodec.SUBSCRIBE, ID: 7, Topics: [][]byte{pat(n, 1)}, QoSs: []byte{1}},
+			{Type: refcodec.SUBSCRIBE, ID: 7, Topics: [][]byte{[]byte("a"), pat(n, 2)}, QoSs: []byte{0, 2}},
+			{Type: refcodec.UNSUBSCRIBE, ID: 7, Topics: [][]byte{pat(n, 3)}},
+			{Type: refcodec.PUBLISH, QoS: 1, ID: 7, Topic: pat(n, 4), Payload: []byte("x")},
+		} {
+			if !e.mine() {
+				continue
+			}
+			e.c.Rep.Evaluations++
+			shape := shapeOf(p) + "/overlong"
+			desc := map[string]interface{}{"packet": refcodec.Name(p.Type), "string_length": n}
+			func() {
+				defer func() {
+					if r := recover(); r != nil {
+						e.fail(p.Type, shape, fmt.Sprintf("the library panics on a string of %d bytes: %v", n, r), desc)
+					}
+				}()
+				m, err := build(p, false)
+				if err != nil {
+					return // refused by the setters: fine
+				}
+				buf := make([]byte, m.Len()+8)
+				k, err := m.Encode(buf)
+				if err != nil {
+					return // refused by Encode: fine
+				}
+				m2 := newMsg(p.Type)
+				dn, derr := m2.Decode(append([]byte(nil), buf[:k]...))
+				if derr != nil || dn != k {
+					e.fail(p.Type, shape, fmt.Sprintf("Encode accepts a string of %d bytes and writes %d bytes its own decoder does not take (consumed %d, err=%v)", n, k, dn, derr), desc)
+					return
+				}
+				if d := sameFields(p, fromLib(m2)); d != "" {
+					e.fail(p.Type, shape, fmt.Sprintf("Encode accepts a string of %d bytes; the bytes decode to other fields: %s", n, d), desc)
+				}
+			}()
+		}
+	}
+}
+
 func enumSmall(e *enumCtx, thorough bool) {
 	for _, sp := range []bool{false, true} {
 		for code := byte(0); code <= 5; code++ {
@@ -590,6 +636,8 @@ func C03(c *core.Ctx) {
 		e.class = "large-publish"
 		largePublish(e)
 	}
+	e.class = "overlong-strings"
+	overlong(e)
 	setterHistories(e, th)
 	c.Rep.Scenarios++
 	e.class = "padded-lengths"
